@@ -62,11 +62,13 @@ with the real package):
      `ValidRemap`).  The DEFAULT mapping `identifier + '_' + qubits` is covered as well: it is not
      injective across entries either (`'Z' + '_' + '12'` for the qubits `(1, 2)` and for the qubit
      `12`; example `eDefaultClash`).
- D6j an identifier mapping (`extend`: third element of an entry; `remap`:
-     `oper_identifier_mapping`) that misses an identifier of its pulse is rejected with `KeyError`
-     — neither `ValueError` nor `TypeError` (`extend([(p, 0, {'Z': 'a'}), (p, 1)])` for a pulse
-     with the identifiers `X`, `Z`: `KeyError: 'X'`).  Modelled as it is (`Err.keyError`;
-     `extend_error_class`, `remap_rejects_iff`).
+ D6j (REPAIRED, finding F50) an identifier mapping (`extend`: third element of an entry; `remap`:
+     `oper_identifier_mapping`) that misses an identifier of its pulse was rejected with the bare
+     `KeyError` of the dict look-up — neither `ValueError` nor `TypeError`
+     (`extend([(p, 0, {'Z': 'a'}), (p, 1)])` for a pulse with the identifiers `X`, `Z`:
+     `KeyError: 'X'`).  `_map_identifiers` now raises `ValueError` ("Identifier mapping has no
+     entry for identifier …"); the order of the checks is unchanged (`extend_missing_key_rejected`,
+     `remap_missing_key_rejected`, `extend_error_class`, `remap_error_class`).
 Not expressible in the abstraction (observed with the real package): `dt = 'abc'` raises
 `AttributeError`; a two-dimensional `dt` is accepted; option values are compared with `==`, so
 `order=True` / `order=1.0` pass for `order=1`.
@@ -673,28 +675,22 @@ theorem remap_valid_never_rejected (d logN dpq : Nat) (order : List Int) (cIds n
   · exact absurd hv.2.2 hn
 
 /-- `remap(pulse, order, d_per_qubit, oper_identifier_mapping)` raises exactly outside the
-documented domain, and which exception (ALL inputs): `ValueError` for an `order` / a dimension that
-does not fit (first, `remap_shape_rejects_iff`); else `KeyError` when the mapping misses an
-identifier (D6j); else `ValueError` when two control or two noise operators get the same
-identifier (the repair of F48, D6i). -/
+documented domain (`ValidRemap`), and always a `ValueError` (ALL inputs): for an `order` / a
+dimension that does not fit (first, `remap_shape_rejects_iff`); else when the mapping misses an
+identifier (the repair of F50, D6j — formerly a `KeyError`); else when two control or two noise
+operators get the same identifier (the repair of F48, D6i). -/
 theorem remap_rejects_iff (d logN dpq : Nat) (order : List Int) (cIds nIds : List String)
     (mapping : Option RemapDef.Dict) (e : Err) :
     remapChecks d logN dpq order cIds nIds mapping = .error e ↔
-      (¬ RemapShapeOk d logN dpq order ∧ e = .valueError) ∨
-      (RemapShapeOk d logN dpq order ∧ ¬ RemapMappingTotal mapping (cIds ++ nIds) ∧ e = .keyError) ∨
-      (RemapShapeOk d logN dpq order ∧ RemapMappingTotal mapping (cIds ++ nIds) ∧
-        ¬ ((remapMapped mapping cIds).Nodup ∧ (remapMapped mapping nIds).Nodup) ∧ e = .valueError) := by
+      ¬ ValidRemap d logN dpq order cIds nIds mapping ∧ e = .valueError := by
   unfold remapChecks
   cases hs : remapShapeChecks d logN dpq order with
   | error e' =>
     obtain ⟨hn, rfl⟩ := (remap_shape_rejects_iff d logN dpq order e').mp hs
     simp only [Except.error.injEq]
     constructor
-    · rintro rfl; exact .inl ⟨hn, rfl⟩
-    · rintro (⟨-, rfl⟩ | ⟨hok, -⟩ | ⟨hok, -⟩)
-      · rfl
-      · exact absurd hok hn
-      · exact absurd hok hn
+    · rintro rfl; exact ⟨fun hv => hn hv.1, rfl⟩
+    · rintro ⟨-, rfl⟩; rfl
   | ok u =>
     have hok := (remap_shape_ok_iff d logN dpq order).mp (by rw [hs])
     simp only
@@ -702,26 +698,17 @@ theorem remap_rejects_iff (d logN dpq : Nat) (order : List Int) (cIds nIds : Lis
     · rw [h]
       constructor
       · intro h'; cases h'
-      · rintro (⟨hno, -⟩ | ⟨-, hnt, -⟩ | ⟨-, -, hnd, -⟩)
-        · exact absurd hok hno
-        · exact absurd ht hnt
-        · exact absurd ⟨hc, hn⟩ hnd
+      · rintro ⟨hnv, -⟩; exact absurd ⟨hok, ht, hc, hn⟩ hnv
     · rw [h]
       simp only [Except.error.injEq]
       constructor
-      · rintro rfl; exact .inr (.inl ⟨hok, hnt, rfl⟩)
-      · rintro (⟨hno, -⟩ | ⟨-, -, rfl⟩ | ⟨-, ht, -⟩)
-        · exact absurd hok hno
-        · rfl
-        · exact absurd ht hnt
+      · rintro rfl; exact ⟨fun hv => hnt hv.2.1, rfl⟩
+      · rintro ⟨-, rfl⟩; rfl
     · rw [h]
       simp only [Except.error.injEq]
       constructor
-      · rintro rfl; exact .inr (.inr ⟨hok, ht, hnd, rfl⟩)
-      · rintro (⟨hno, -⟩ | ⟨-, hnt, -⟩ | ⟨-, -, -, rfl⟩)
-        · exact absurd hok hno
-        · exact absurd ht hnt
-        · rfl
+      · rintro rfl; exact ⟨fun hv => hnd hv.2.2, rfl⟩
+      · rintro ⟨-, rfl⟩; rfl
 
 /-- `remap` raises exactly on the calls outside `ValidRemap` (ALL inputs). -/
 theorem remap_rejects_iff_invalid (d logN dpq : Nat) (order : List Int) (cIds nIds : List String)
@@ -729,49 +716,38 @@ theorem remap_rejects_iff_invalid (d logN dpq : Nat) (order : List Int) (cIds nI
     (∃ e, remapChecks d logN dpq order cIds nIds mapping = .error e) ↔
       ¬ ValidRemap d logN dpq order cIds nIds mapping := by
   constructor
-  · rintro ⟨e, he⟩ hv
-    rw [remap_valid_never_rejected _ _ _ _ _ _ _ hv] at he; cases he
+  · rintro ⟨e, he⟩
+    exact ((remap_rejects_iff _ _ _ _ _ _ _ _).mp he).1
   · intro hnv
-    by_cases hs : RemapShapeOk d logN dpq order
-    · by_cases ht : RemapMappingTotal mapping (cIds ++ nIds)
-      · refine ⟨.valueError, (remap_rejects_iff _ _ _ _ _ _ _ _).mpr (.inr (.inr ⟨hs, ht, ?_, rfl⟩))⟩
-        intro hn; exact hnv ⟨hs, ht, hn⟩
-      · exact ⟨.keyError, (remap_rejects_iff _ _ _ _ _ _ _ _).mpr (.inr (.inl ⟨hs, ht, rfl⟩))⟩
-    · exact ⟨.valueError, (remap_rejects_iff _ _ _ _ _ _ _ _).mpr (.inl ⟨hs, rfl⟩)⟩
+    exact ⟨.valueError, (remap_rejects_iff _ _ _ _ _ _ _ _).mpr ⟨hnv, rfl⟩⟩
 
-/-- **The repair of F48 in `remap`** (ALL inputs): a mapping that covers the identifiers but sends
-two control operators, or two noise operators, to the same identifier is rejected with
-`ValueError` — whatever the other arguments are (a bad `order` / dimension raises `ValueError`
-before). Without a mapping this concerns a pulse whose own identifiers repeat. -/
+/-- **The repair of F48 in `remap`** (ALL inputs): a mapping that sends two control operators, or
+two noise operators, to the same identifier is rejected with `ValueError` — whatever the other
+arguments are. Without a mapping this concerns a pulse whose own identifiers repeat.
+(Since the repair of F50 the hypothesis "the mapping covers the identifiers" is not needed any
+more: a missing key is a `ValueError` as well, `remap_missing_key_rejected`.) -/
 theorem remap_duplicate_mapped_ids_rejected (d logN dpq : Nat) (order : List Int)
     (cIds nIds : List String) (mapping : Option RemapDef.Dict)
-    (ht : RemapMappingTotal mapping (cIds ++ nIds))
     (hd : ¬ (remapMapped mapping cIds).Nodup ∨ ¬ (remapMapped mapping nIds).Nodup) :
     remapChecks d logN dpq order cIds nIds mapping = .error .valueError := by
   rw [remap_rejects_iff]
-  by_cases hs : RemapShapeOk d logN dpq order
-  · refine .inr (.inr ⟨hs, ht, ?_, rfl⟩)
-    rintro ⟨h1, h2⟩
-    exact hd.elim (fun h => h h1) (fun h => h h2)
-  · exact .inl ⟨hs, rfl⟩
+  refine ⟨?_, rfl⟩
+  rintro ⟨-, -, h1, h2⟩
+  exact hd.elim (fun h => h h1) (fun h => h h2)
 
-/-- D6j: a mapping that misses an identifier is rejected — with `KeyError` when `order` and the
-dimension fit (ALL inputs). -/
+/-- D6j (repaired, F50; ALL inputs): a mapping that misses an identifier is rejected with
+`ValueError`, whatever `order` and the dimension are (formerly `KeyError` when they fit). -/
 theorem remap_missing_key_rejected (d logN dpq : Nat) (order : List Int)
     (cIds nIds : List String) (mapping : Option RemapDef.Dict)
-    (hs : RemapShapeOk d logN dpq order) (ht : ¬ RemapMappingTotal mapping (cIds ++ nIds)) :
-    remapChecks d logN dpq order cIds nIds mapping = .error .keyError :=
-  (remap_rejects_iff _ _ _ _ _ _ _ _).mpr (.inr (.inl ⟨hs, ht, rfl⟩))
+    (ht : ¬ RemapMappingTotal mapping (cIds ++ nIds)) :
+    remapChecks d logN dpq order cIds nIds mapping = .error .valueError :=
+  (remap_rejects_iff _ _ _ _ _ _ _ _).mpr ⟨fun hv => ht hv.2.1, rfl⟩
 
-/-- The exception of `remap` is a `ValueError`, or the `KeyError` of an incomplete mapping. -/
+/-- The exception of `remap` is always a `ValueError` (ALL inputs). -/
 theorem remap_error_class (d logN dpq : Nat) (order : List Int) (cIds nIds : List String)
     (mapping : Option RemapDef.Dict) {e : Err}
-    (h : remapChecks d logN dpq order cIds nIds mapping = .error e) :
-    e = .valueError ∨ (e = .keyError ∧ ¬ RemapMappingTotal mapping (cIds ++ nIds)) := by
-  rcases (remap_rejects_iff _ _ _ _ _ _ _ _).mp h with ⟨-, h⟩ | ⟨-, ht, h⟩ | ⟨-, -, -, h⟩
-  · exact .inl h
-  · exact .inr ⟨h, ht⟩
-  · exact .inl h
+    (h : remapChecks d logN dpq order cIds nIds mapping = .error e) : e = .valueError :=
+  ((remap_rejects_iff _ _ _ _ _ _ _ _).mp h).2
 
 example : remapChecks 8 3 2 [2, 0, 1] = .ok () := by decide
 example : remapChecks 8 3 2 [2, 0] = .error .valueError := by decide
@@ -794,16 +770,15 @@ example : remapChecks 4 2 2 [1, 0] ["X_0", "X_1"] ["Z_0", "Z_1"]
     (some [("X_0", "a"), ("X_1", "b"), ("Z_0", "b"), ("Z_1", "b")]) = .error .valueError ∧
     remapChecks 4 2 2 [1, 0] ["X_0", "X_1"] ["Z_0", "Z_1"]
     (some [("X_0", "a"), ("X_1", "b"), ("Z_0", "a"), ("Z_1", "b")]) = .ok () := by decide
-/-- D6j: `KeyError` for a missing key — after the `ValueError` of a bad `order` -/
+/-- D6j (repaired): `ValueError` for a missing key, as for a bad `order` -/
 example : remapChecks 4 2 2 [1, 0] ["X_0", "X_1"] ["Z_0", "Z_1"] (some [("X_0", "a")]) =
-      .error .keyError ∧
+      .error .valueError ∧
     remapChecks 4 2 2 [1, 1] ["X_0", "X_1"] ["Z_0", "Z_1"] (some [("X_0", "a")]) =
       .error .valueError := by decide
 /-- hypotheses of `remap_duplicate_mapped_ids_rejected` / `remap_missing_key_rejected` are
 satisfiable -/
-example : RemapMappingTotal (some [("X_0", "a"), ("X_1", "a")]) (["X_0", "X_1"] ++ []) ∧
-    ¬ (remapMapped (some [("X_0", "a"), ("X_1", "a")]) ["X_0", "X_1"]).Nodup ∧
-    RemapShapeOk 4 2 2 [1, 0] ∧ ¬ RemapMappingTotal (some [("X_0", "a")]) (["X_0", "X_1"] ++ []) := by
+example : ¬ (remapMapped (some [("X_0", "a"), ("X_1", "a")]) ["X_0", "X_1"]).Nodup ∧
+    ¬ RemapMappingTotal (some [("X_0", "a")]) (["X_0", "X_1"] ++ []) := by
   decide
 
 /-! ### `extend` -/
@@ -857,8 +832,8 @@ theorem extend_rejects_iff (x : ExtendSpec) (hrf : ExtendRegularFront x)
     exact ⟨fun _ hv => hnv hv.1, fun _ => ⟨_, rfl⟩⟩
 
 /-- Which exception: every rejection is a `ValueError` explained by a corruption of the mapping,
-or has the class of a corruption of the remaining arguments (`ValueError`, except for an
-incomplete identifier mapping — `KeyError`, D6j — and for a malformed additional noise
+or has the class of a corruption of the remaining arguments (`ValueError` — also for an incomplete
+identifier mapping since the repair of F50, D6j — except for a malformed additional noise
 Hamiltonian, which raises what the constructor raises for it). -/
 theorem extend_rejection_explained (x : ExtendSpec) (hrf : ExtendRegularFront x)
     (hrb : ExtendRegularBack x) {e : Err} (h : extendChecks x = .error e) :
@@ -875,20 +850,18 @@ theorem extend_rejection_explained (x : ExtendSpec) (hrf : ExtendRegularFront x)
       · rw [hb] at h; cases h; exact .inr ⟨hvf, k, hk, rfl⟩
   · rw [hf] at h; cases h; exact .inl ⟨rfl, hk⟩
 
-/-- The exception is a `ValueError` unless an identifier mapping misses an identifier of its pulse
-(`KeyError`, D6j) or the additional noise Hamiltonian is malformed in a way that raises
-`TypeError` in `_parse_Hamiltonian`. -/
+/-- The exception is a `ValueError` unless the additional noise Hamiltonian is malformed in a way
+that raises `TypeError` in `_parse_Hamiltonian` (an incomplete identifier mapping raised
+`KeyError` before the repair of F50, D6j). -/
 theorem extend_error_class (x : ExtendSpec) (hrf : ExtendRegularFront x)
     (hrb : ExtendRegularBack x) {e : Err} (h : extendChecks x = .error e) :
-    e = .valueError ∨ (e = .keyError ∧ ∃ p ∈ x.pulses, ¬ p.MappingTotal) ∨
-      ∃ H k, x.additional = some H ∧ HamViolates H (extendNDt x) "B" k ∧ k.cls = e := by
+    e = .valueError ∨ ∃ H k, x.additional = some H ∧ HamViolates H (extendNDt x) "B" k ∧ k.cls = e := by
   rcases extend_rejection_explained x hrf hrb h with ⟨rfl, _⟩ | ⟨_, k, hk, hc⟩
   · exact .inl rfl
   · cases k with
     | additional k' =>
       obtain ⟨H, hH, hv⟩ := hk
-      exact .inr (.inr ⟨H, k', hH, hv, hc⟩)
-    | missingKey => exact .inr (.inl ⟨hc.symm, hk⟩)
+      exact .inr ⟨H, k', hH, hv, hc⟩
     | _ => left; simpa [ExtBackKind.cls] using hc.symm
 
 /-- If the call is invalid and all corruptions present have class `e` (e.g. exactly one
@@ -904,13 +877,13 @@ theorem extend_class_of_corruption (x : ExtendSpec) (hrf : ExtendRegularFront x)
   · rw [he', ← hc, hback k hk]
 
 /-- **The repair of F48 in `extend`** (ALL inputs, no side condition but "no early return", D6g):
-when the identifier mappings are complete and two control operators, or two noise operators, of
-the mapped pulses get the same identifier — through given mappings, through the default mapping,
-or because a pulse's own identifiers repeat — the call is rejected with `ValueError`, whatever the
-other arguments are (every check that comes earlier raises `ValueError` as well). -/
+when two control operators, or two noise operators, of the mapped pulses get the same identifier
+— through given mappings, through the default mapping, or because a pulse's own identifiers repeat
+— the call is rejected with `ValueError`, whatever the other arguments are (every check that comes
+earlier raises `ValueError` as well — since the repair of F50 also an incomplete mapping, so the
+former hypothesis "mappings complete" is gone). -/
 theorem extend_duplicate_mapped_ids_rejected (x : ExtendSpec)
     (hs : identityShortcut x.pulses (extendN x) = false)
-    (ht : ∀ p ∈ x.pulses, p.MappingTotal)
     (hd : ¬ (mappedCIds x).Nodup ∨ ¬ (mappedNIds x).Nodup) :
     extendChecks x = .error .valueError := by
   unfold extendChecks
@@ -920,20 +893,18 @@ theorem extend_duplicate_mapped_ids_rejected (x : ExtendSpec)
     have hN := extendFront_ok hf
     subst hN
     simp only [hs, Bool.false_eq_true, ↓reduceIte]
-    rcases extendBack_of_not_unique x (extendN x) hd with h | ⟨_, p, hp, hk⟩
-    · exact h
-    · exact absurd (ht p hp) hk
+    exact extendBack_of_not_unique x (extendN x) hd
 
-/-- D6j (ALL inputs, no early return): an identifier mapping that misses an identifier of its pulse
-is rejected — with `KeyError`, unless one of the earlier checks (mapping of the pulses to qubits,
-frequencies, option conflict) raises its `ValueError` first. -/
+/-- D6j (repaired, F50; ALL inputs, no early return): an identifier mapping that misses an
+identifier of its pulse is rejected with `ValueError` (formerly `KeyError`, unless an earlier
+check raised its `ValueError` first). -/
 theorem extend_missing_key_rejected (x : ExtendSpec)
     (hs : identityShortcut x.pulses (extendN x) = false)
     (hk : ∃ p ∈ x.pulses, ¬ p.MappingTotal) :
-    extendChecks x = .error .valueError ∨ extendChecks x = .error .keyError := by
+    extendChecks x = .error .valueError := by
   unfold extendChecks
   cases hf : extendFront x with
-  | error e => rw [extendFront_error hf]; exact .inl rfl
+  | error e => rw [extendFront_error hf]
   | ok N =>
     have hN := extendFront_ok hf
     subst hN
@@ -941,16 +912,15 @@ theorem extend_missing_key_rejected (x : ExtendSpec)
     exact extendBack_of_missing_key x (extendN x) hk
 
 /-- A pulse whose OWN control or noise identifiers repeat (not constructible through the public
-interface, but the identifier arrays are plain attributes) is rejected (ALL inputs, no early
-return): by the inner `remap` when it is remapped, else by the uniqueness check — `ValueError` —
-or, with an incomplete mapping, possibly `KeyError`. -/
+interface, but the identifier arrays are plain attributes) is rejected with `ValueError` (ALL
+inputs, no early return): by the inner `remap` when it is remapped, else by the uniqueness check
+(or by the check of the mapping's keys). -/
 theorem extend_own_duplicates_rejected (x : ExtendSpec)
     (hs : identityShortcut x.pulses (extendN x) = false)
     {p : EPulse} (hp : p ∈ x.pulses) (hd : ¬ p.cIds.Nodup ∨ ¬ p.nIds.Nodup) :
-    extendChecks x = .error .valueError ∨ extendChecks x = .error .keyError := by
+    extendChecks x = .error .valueError := by
   by_cases ht : ∀ q ∈ x.pulses, q.MappingTotal
-  · left
-    apply extend_duplicate_mapped_ids_rejected x hs ht
+  · apply extend_duplicate_mapped_ids_rejected x hs
     rcases hd with hd | hd
     · exact .inl (mappedCIds_not_nodup_of_own x hp (ht p hp) hd)
     · exact .inr (mappedNIds_not_nodup_of_own x hp (ht p hp) hd)
@@ -1097,19 +1067,16 @@ example : extendChecks eDefaultClash = .error .valueError ∧ ValidExtendFront e
     mappedNIds eDefaultClash = ["Z_12", "Z_12"] := by decide
 /-- the duplicate check comes before the additional noise Hamiltonian (a `TypeError` otherwise) … -/
 example : extendChecks { eDupN with additional := some .notList } = .error .valueError := by decide
-/-- … and after the frequency / option-conflict checks and the `KeyError` of the loops -/
-example : extendChecks { pulses := [epm 0 (some [("X", "a"), ("Z", "a")]), epm 1 (some [("X", "b")])] } =
-    .error .keyError := by decide
-/-- D6j: `extend([(p, 0, {'Z': 'a'}), (p, 1)])` raises `KeyError: 'X'` -/
+/-- D6j (repaired): `extend([(p, 0, {'Z': 'a'}), (p, 1)])` raised `KeyError: 'X'`, now `ValueError` -/
 def eKey : ExtendSpec := { pulses := [epm 0 (some [("Z", "a")]), epm 1 none] }
-example : extendChecks eKey = .error .keyError ∧ ¬ ValidExtend eKey ∧
+example : extendChecks eKey = .error .valueError ∧ ¬ ValidExtend eKey ∧
     ExtendRegularFront eKey ∧ ExtendRegularBack eKey ∧
     identityShortcut eKey.pulses (extendN eKey) = false := by decide
 example : ExtBackViolates eKey 2 .missingKey := by
   show ∃ p ∈ eKey.pulses, ¬ p.MappingTotal
   decide
 example : extendChecks { eKey with cacheFF := some true } = .error .valueError ∧
-    extendChecks { eKey with additional := some .notList } = .error .keyError := by decide
+    extendChecks { eKey with additional := some .notList } = .error .valueError := by decide
 /-- the mapping is not looked at when the pulse is returned as is (D6g) -/
 example : extendChecks { pulses := [epm 0 (some [("Z", "a")])] } = .ok 1 := by decide
 /-- own identifiers repeated (`pulse.n_oper_identifiers` overwritten): rejected by the inner `remap`
